@@ -123,7 +123,9 @@ func VerifyProof(root, key *felt.Felt, proof *ProofNodeSet, hash crypto.HashFn) 
 			return felt.Zero, fmt.Errorf("proof node not found, expected hash: %s", expected.String())
 		}
 
-		nHash, _ := h.hash(node)
+		// Always recompute the hash from the node's content: the cached hash flag of a
+		// proof node (Prove copies it from the trie) is not part of the proof
+		_, nHash := h.proofHash(node)
 
 		// Verify the hash matches
 		hashVal := felt.Felt(*nHash.(*trienode.HashNode))
@@ -144,6 +146,10 @@ func VerifyProof(root, key *felt.Felt, proof *ProofNodeSet, hash crypto.HashFn) 
 			}
 			expected = felt.Felt(*cld)
 		case *trienode.ValueNode:
+			// A value and a hash child hash identically; only accept a value at the leaf level
+			if keyBits.Len() != 0 {
+				return felt.Zero, errors.New("proof ends in a value node before the key is consumed")
+			}
 			return felt.Felt(*cld), nil
 		case *trienode.EdgeNode, *trienode.BinaryNode:
 			if hash, _ := cld.Cache(); hash != nil {
